@@ -88,6 +88,9 @@ func main() {
 		for p := 128; p <= 3*buf; p *= 2 {
 			sizes = append(sizes, p-1, p, p+1)
 		}
+		for k := 0; k < 150; k++ {
+			sizes = append(sizes, 65+rng.Intn(12*buf))
+		}
 	}
 	sizes = append(sizes, 2+rng.Intn(3*buf), 2+rng.Intn(200))
 	type fail struct {
